@@ -1789,3 +1789,34 @@ MUTANTS.append({"id": "C15-decltype-error-leaves-null-type", "prop": "C15", "exp
   "edits": [("src/cppparser/cppBison.yxx",
              "    // Carry on with a placeholder; a null type cannot be declared with.\n    $$ = CPPType::new_type(new CPPSimpleType(CPPSimpleType::T_unknown));\n",
              "", 3)]})
+
+# ---- R15.14 after the F-C15k repair (ClassInProgress guard in cppStructType.cxx)
+F_ST = "src/cppparser/cppStructType.cxx"
+_G_TRIVIAL = """is_trivial() const {
+  static ClassInProgress::Set in_progress;
+  ClassInProgress guard(in_progress, this);
+  if (guard.is_recursive()) {
+    // This class contains or derives from itself; that is ill-formed.
+    return false;
+  }
+"""
+M("C15-class-guard-dropped-from-is_trivial", "C15", F_ST, _G_TRIVIAL, "is_trivial() const {\n",
+  expect="R15.14|CPPStructType::is_trivial|recursion-guard")
+M("C15-class-guard-set-not-static", "C15", F_ST, _G_TRIVIAL,
+  _G_TRIVIAL.replace("static ClassInProgress::Set in_progress;", "ClassInProgress::Set in_progress;"),
+  expect="R15.14|CPPStructType::is_trivial|recursion-guard")
+M("C15-class-guard-answer-ignored", "C15", F_ST, _G_TRIVIAL,
+  _G_TRIVIAL.replace("  if (guard.is_recursive()) {\n    // This class contains or derives from itself; that is ill-formed.\n    return false;\n  }\n", "  (void)guard.is_recursive();\n"),
+  expect="R15.14|CPPStructType::is_trivial|recursion-guard")
+M("C15-class-guard-never-leaves", "C15", F_ST,
+  "    if (_is_first) {\n      _in_progress.erase(_type);\n    }\n", "",
+  expect="R15.14|ClassInProgress|destructor-unregisters")
+M("C15-class-guard-polarity", "C15", F_ST,
+  "    return !_is_first;\n", "    return _is_first;\n",
+  expect="R15.14|ClassInProgress::is_recursive|answers-not-new")
+M("C15-class-guard-does-not-insert", "C15", F_ST,
+  "_is_first(in_progress.insert(type).second) {", "_is_first(in_progress.count(type) == 0) {",
+  expect="R15.14|ClassInProgress|constructor-registers")
+M("C15-benign-class-guard-comment-and-order", "C15", F_ST, _G_TRIVIAL,
+  "is_trivial() const {\n  static ClassInProgress::Set judged;\n  ClassInProgress guard(judged, this);\n  if (guard.is_recursive()) {\n    // ill-formed\n    return false;\n  }\n",
+  benign=True)
